@@ -4,6 +4,7 @@ from __future__ import annotations
 import itertools
 import math
 import sys
+import warnings
 import types
 
 import numpy as np
@@ -179,6 +180,23 @@ class numpy_import_as:
         sys.modules["numpy"] = self.saved
 
 
+class DispatchRandom:
+    """np.random as seen by the likelihood-dispatch code (SamplerCore._log_like / _get_distribute_func): every use is recorded;
+    the dispatch machinery must not consume (or reseed) the stream the sampler draws its innovations from."""
+
+    def __init__(self):
+        self.used = []
+
+    def __getattr__(self, name):
+        if name.startswith("_"):
+            raise AttributeError(name)
+
+        def f(*a, **k):
+            self.used.append(name)
+            return getattr(np.random.RandomState(12345), name)(*a, **k)
+        return f
+
+
 def core_proxy(stub=None):
     def array(obj, dtype=None, **k):
         flat = np.array(obj, dtype=object)
@@ -264,7 +282,8 @@ def make_loglike(strat, blobs, npts, d=1):
         sys.modules["multiprocess"] = fake_multiprocess(ctx, rec)
         try:
             ex = smp._core.config.pool if isinstance(smp._core.config.pool, ExecutorDouble) else None
-            with patched(core_mod, np=core_proxy(), float=lambda v: v), numpy_import_as(core_proxy()), futures_double(ex):
+            dr = DispatchRandom()
+            with patched(core_mod, np=core_proxy(dr), float=lambda v: v), numpy_import_as(core_proxy(dr)), futures_double(ex):
                 try:
                     logl, bl = smp._core._log_like(sarr(x))
                 except AttributeError as e:
@@ -284,9 +303,54 @@ def make_loglike(strat, blobs, npts, d=1):
             if okb:
                 ctx.check("blob[i]==BL(x[i])-in-input-order", z3.And(*[eq(bl[i], cb.bl_term(x[i])) for i in range(npts)]))
         ctx.check("likelihood-evaluated-once-per-point", z3.BoolVal(counter["points"] == npts))
+        ctx.check("dispatch-does-not-touch-the-random-stream", z3.BoolVal(not dr.used), detail=dr.used[:4])
         return None
 
     def replay(m, label, v):
+        if label == "dispatch-does-not-touch-the-random-stream":
+            # real dispatch code, real numpy stream; worker processes replaced by an in-process pool class
+            import types as _t
+            size = int(m.get("pool_size", 2))
+
+            class InProc:
+                def __init__(self, *a, **k):
+                    pass
+
+                def map(self, f, xs):
+                    return [f(x_) for x_ in xs]
+
+                def close(self):
+                    pass
+
+                def join(self):
+                    pass
+
+                def terminate(self):
+                    pass
+            saved = sys.modules.get("multiprocess")
+            sys.modules["multiprocess"] = _t.SimpleNamespace(Pool=InProc)
+            s0 = np.random.get_state()
+            try:
+                np.random.seed(5)
+                before = np.random.get_state()[1].copy(), np.random.get_state()[2]
+                pool = {"pool-int": size, "pool-object": InProc(), "pool-executor": None}.get(strat)
+                kw = dict(n_dim=d, n_particles=2, clustering=False)
+                if strat == "vectorized":
+                    smp = Sampler(lambda u: u, lambda xx: -np.sum(xx ** 2, axis=1), vectorize=True, **kw)
+                else:
+                    smp = Sampler(lambda u: u, lambda xr: -float(np.sum(xr ** 2)), pool=pool, **kw)
+                smp._core._log_like(np.zeros((npts, d)))
+                after = np.random.get_state()[1].copy(), np.random.get_state()[2]
+            finally:
+                np.random.set_state(s0)
+                if saved is not None:
+                    sys.modules["multiprocess"] = saved
+                else:
+                    sys.modules.pop("multiprocess", None)
+            moved = (not np.array_equal(before[0], after[0])) or before[1] != after[1]
+            return {"reproduced": bool(moved), "signature": f"_log_like:{strat}:consumes-the-global-random-stream", "payload": {"pool": repr(pool)},
+                    "what": f"one likelihood batch through {strat} (pool={pool!r}) advanced numpy's global random stream: runs under this evaluation mode "
+                            "diverge from serial runs with the same seed"}
         if strat == "pool-int":
             size = int(m.get("pool_size", 1))
             try:
@@ -494,13 +558,97 @@ def make_paired(stratA, stratB, phase, d=1, n=2, inf=False):
                       allow_bound="paths needing more proposal redraws than the draw budget are cut", theory="QF_UFNRA", max_paths=3000)
 
 
+def make_resume_calls(strat):
+    """calls reported after a resume == calls stored in the checkpoint + likelihood evaluations actually performed while loading."""
+    import tempfile
+    from pathlib import Path
+
+    def harness(ctx: PathCtx):
+        from vf.props.c08 import FakeFS, io_doubles
+        cbA, cntA = Callbacks(1, blobs=False), {"points": 0}
+        A = build_sampler(ctx, cbA, strat, False, cntA, d=1, n=2, mp_record=[])
+        calls = integer(ctx, "calls_in_checkpoint", lo=0, hi=10 ** 6)
+        u = np.array([[0.25], [0.75]])
+        A.state.update_current({"u": u, "x": u.copy(), "logl": np.array([-1.0, -2.0]), "beta": 0.5, "logz": -0.5, "iter": 3, "calls": calls,
+                                "ess": 2.0, "assignments": np.zeros(2, dtype=int), "steps": 1, "acceptance": 0.5, "efficiency": 1.0})
+        A.state.commit_current_to_history()
+        A._core.n_total = 8
+        cbB, cntB = Callbacks(1, blobs=False), {"points": 0}
+        B = build_sampler(ctx, cbB, strat, False, cntB, d=1, n=2, mp_record=[])
+        fs = FakeFS()
+        path = Path(tempfile.gettempdir()) / "vf_c13" / "ps_3.state"
+        rs = np.random.get_state()
+        saved = sys.modules.get("multiprocess")
+        sys.modules["multiprocess"] = fake_multiprocess(ctx, [])
+        try:
+            with io_doubles(fs), warnings.catch_warnings():
+                warnings.simplefilter("ignore")
+                A.save_state(path)
+                with patched(core_mod, float=lambda v: v):
+                    B._core._initialize_from_resume(path)
+        finally:
+            np.random.set_state(rs)
+            if saved is not None:
+                sys.modules["multiprocess"] = saved
+            else:
+                sys.modules.pop("multiprocess", None)
+        got = B.state._current["calls"]
+        from vf.engine.real import SymInt
+        ctx.check("saving-evaluates-nothing", z3.BoolVal(cntA["points"] == 0))
+        ctx.check("calls-after-resume==calls-in-checkpoint+evaluations-performed-while-loading",
+                  (SymInt.lift(got) == calls + cntB["points"]).z, detail={"evaluations_while_loading": cntB["points"]})
+        return None
+
+    def replay(m, label, v):
+        import shutil
+        tmp = tempfile.mkdtemp(prefix="vf_c13_")
+        cnt = {"n": 0}
+
+        def fpt(xr):
+            cnt["n"] += 1
+            return -float(np.sum((xr - 0.3) ** 2))
+
+        def fb(xx):
+            cnt["n"] += len(xx)
+            return -np.sum((xx - 0.3) ** 2, axis=1)
+        s0 = np.random.get_state()
+        try:
+            kw = dict(n_dim=1, n_particles=4, clustering=False, output_dir=tmp, random_state=1)
+            mk = (lambda: Sampler(lambda u: u, fb, vectorize=True, **kw)) if strat == "vectorized" else (lambda: Sampler(lambda u: u, fpt, **kw))
+            a = mk()
+            a._core._initialize_fresh()
+            for _ in range(3):
+                a.sample()
+            a.save_state(Path(tmp) / "ck.state")
+            stored = int(a.state.get_current("calls"))
+            before = cnt["n"]
+            with warnings.catch_warnings():
+                warnings.simplefilter("ignore")
+                b = mk()
+                b._core._initialize_from_resume(Path(tmp) / "ck.state")
+            evaluated = cnt["n"] - before
+            reported = int(b.state.get_current("calls"))
+        finally:
+            np.random.set_state(s0)
+            shutil.rmtree(tmp, ignore_errors=True)
+        bad = reported != stored + evaluated
+        return {"reproduced": bool(bad), "signature": f"resume:{strat}:uncounted-likelihood-evaluations",
+                "payload": {"calls_in_checkpoint": stored, "evaluations_while_loading": evaluated, "calls_after_resume": reported},
+                "what": f"resuming ({strat}) evaluated the likelihood {evaluated} time(s) while loading but reports {reported} calls for a checkpoint that stored {stored}"}
+
+    return Obligation(f"resume-calls-{strat}", harness, replay=replay,
+                      encodes=[core_mod.SamplerCore.save_sampler_state, core_mod.SamplerCore.load_sampler_state, core_mod.SamplerCore._initialize_from_resume],
+                      bounds="one stored iteration of 2 particles, symbolic stored call count in [0, 10^6], evaluation strategy " + strat,
+                      stubs=["file system / dill -> by-value doubles (C08)", "likelihood -> counting uninterpreted callback"], theory="QF_LIA")
+
+
 def obligations(tier):
     obs = []
     for strat in STRATS:
         for blobs in ((False, True) if strat != "vectorized" else (False,)):
             obs.append(make_loglike(strat, blobs, 3 if tier == "quick" else 3))
     obs += [make_paired("vectorized", "serial", "warmup"), make_paired("vectorized", "serial", "warmup", inf=True), make_paired("serial", "pool-object", "mcmc"),
-            make_paired("vectorized", "serial", "mcmc")]
+            make_paired("vectorized", "serial", "mcmc"), make_resume_calls("serial"), make_resume_calls("vectorized")]
     if tier == "thorough":
         obs += [make_paired("vectorized", "pool-object", "warmup"), make_paired("serial", "pool-int", "mcmc"),
                 make_paired("vectorized", "pool-object", "mcmc", d=1, n=3), make_loglike("pool-object", True, 4), make_loglike("pool-int", False, 4)]
